@@ -9,6 +9,7 @@
   decoder; `getProofRoot` is GetProof.
 -/
 import Goloop.Proofs.C18
+import Goloop.Proofs.C18Total
 import Goloop.Props.C17
 namespace Goloop.C18
 open Goloop.C17
@@ -95,6 +96,76 @@ theorem proof_other_root (H : Bytes → Bytes) (hH : ∀ s, (H s).length = 32)
     (hr : rootHash H t₂ = some root₂) (h : prove H root₂ kb p = .ok v) :
     get t₂ (bytesToNibs kb) = some v ∨ Collision H :=
   proof_sound H hH t₂ ht₂ root₂ kb p v hr h
+
+/-- **altered proofs are rejected**: whenever `Prove` accepts a proof `π` under the root of `t`,
+    the honest proof `GetProof t k` is a prefix of `π` — element for element — or an explicit
+    hash collision is exhibited.  So every proof in which one of the consumed elements was changed,
+    dropped, reordered or replaced is rejected (up to collisions); the only alterations that can be
+    accepted are additional elements *after* the honest proof (see
+    `trailing_elements_accepted_witness`; a terminal hashed leaf rejects even those:
+    `len(proof) != 1`). -/
+theorem altered_proof_rejected (H : Bytes → Bytes) (hH : ∀ s, (H s).length = 32)
+    (t : Node) (ht : Good t) (root kb : Bytes) (π : List Bytes) (v : Bytes)
+    (hr : rootHash H t = some root) (h : prove H root kb π = .ok v) :
+    Collision H ∨ ∃ q, getProofRoot H t (bytesToNibs kb) = some q ∧ q <+: π := by
+  rw [rootHash_good H t ht] at hr
+  cases hr
+  rw [prove, if_neg (hash_ne_nil H hH _)] at h
+  cases π with
+  | nil => simp [proveHash] at h
+  | cons b rest =>
+    by_cases hb : b = serialize H t
+    · subst hb
+      rw [proveHash_cons H Good (good_decOK H hH) t ht] at h
+      split at h
+      · cases h
+      · have hacc : Acc H (toP H t) (bytesToNibs kb) rest v := by
+          unfold Acc
+          split at h
+          · rename_i v' hw; rw [hw]; cases h; rfl
+          · cases h
+          · cases h
+          · rename_i h' k' hw; rw [hw]; exact h
+        rcases prefix_spec H Good good_hered (good_decOK H hH) t ht _ v rest hacc with hc | ⟨q, hq, hpre⟩
+        · exact Or.inl hc
+        · refine Or.inr ⟨serialize H t :: q, ?_, by simpa [List.cons_prefix_cons] using hpre⟩
+          rw [getProofRoot, hq]
+          simp [hdr, hasHash]
+    · rw [proveHash] at h
+      by_cases hh : H b = H (serialize H t)
+      · exact Or.inl ⟨b, _, hb, hh⟩
+      · simp [hh] at h
+
+/-- contrapositive form: a proof that deviates from the honest one within its length is never
+    accepted (unless it exhibits a collision) -/
+theorem changed_element_rejected (H : Bytes → Bytes) (hH : ∀ s, (H s).length = 32)
+    (t : Node) (ht : Good t) (root kb : Bytes) (q π : List Bytes) (v : Bytes)
+    (hr : rootHash H t = some root) (hq : getProofRoot H t (bytesToNibs kb) = some q)
+    (hdev : ¬ q <+: π) : prove H root kb π = .ok v → Collision H := by
+  intro h
+  rcases altered_proof_rejected H hH t ht root kb π v hr h with hc | ⟨q', hq', hpre⟩
+  · exact hc
+  · rw [hq] at hq'; cases hq'; exact absurd hpre hdev
+
+/-- **never crashes** (model level): `prove` has explicit `panic` outcomes at every place where
+    the Go code indexes a slice or calls through an interface that could be nil (deserialize:
+    `keyheader[0]`, `b[0]` in nodeFromLink, decodeKeys `bytes[0]`; extension.prove: `n.next`).
+    After fix F8 none of them is reachable, for ANY root, key and proof bytes. -/
+theorem prove_never_panics (H : Bytes → Bytes) (root key : Bytes) (π : List Bytes) :
+    prove H root key π ≠ .panic := prove_total H root key π
+
+/-- **trailing elements are ignored** (the exact class of altered proofs that is accepted):
+    an accepted proof containing no hashed-leaf element stays accepted with the same value
+    whatever is appended to it. -/
+theorem trailing_elements_ignored (H : Bytes → Bytes) (root key : Bytes) (π extra : List Bytes)
+    (v : Bytes) (hok : prove H root key π = .ok v) (hnl : ∀ b ∈ π, ¬ LeafItem b) :
+    prove H root key (π ++ extra) = .ok v := by
+  unfold prove at hok ⊢
+  split
+  · rename_i hr; simp [hr] at hok
+  · rename_i hr
+    rw [if_neg hr] at hok
+    exact proveHash_append H π extra root _ v hok hnl
 
 /-- an empty root (empty trie) proves nothing -/
 theorem prove_empty_root (H : Bytes → Bytes) (kb : Bytes) (p : List Bytes) :
